@@ -17,9 +17,11 @@ by shape and by the ROLE of the variables); comments, docstrings, line breaks; a
 (`index = w.index`, `subs = cls.__subclasses__()`, `subclasses = a + b`) is inlined; statements of `add_node` /
 `remove_node` that touch different containers are emitted in a canonical order — except that the purge of the relation
 index reads the graph's edges and therefore stays before/after `remove_node(index)` as in the source; the never-read
-`w._symbol_graph_ = self` is dropped; `in_edges + out_edges` in either order; the two parts of `recursive_subclasses` in
-either order (the property observes a set); generator expression or explicit loops in `get_instances_of_type`; `if c:
-continue` or `if not c:` around the rest of a loop body.
+`w._symbol_graph_ = self` is dropped; `in_edges + out_edges` in either order; generator expression or explicit loops in
+`get_instances_of_type`; `if c: continue` or `if not c:` around the rest of a loop body.
+NOT normalised on purpose: the order of the two parts of `recursive_subclasses` and of `[type_] + recursive_subclasses(..)`
+— it is the order in which a lazily consumed evaluation walks the classes, observable through F-C13-3 (found by an
+end-to-end run of a rewrite first believed harmless: notes/build_reports/c13_build.md).
 """
 from __future__ import annotations
 
@@ -376,7 +378,11 @@ def _rec_subs(fn) -> List[str]:
                 ops.append(".recurseOverDirect")
                 continue
         raise TranslationError(f"recursive_subclasses: unsupported part of the result: {_u(p)}")
-    return _order("recursive_subclasses", ops, [".directSubclasses", ".recurseOverDirect"], set()) + ([".dedupKeepFirst"] if dedup else [])
+    if len(set(ops)) != len(ops):
+        raise TranslationError(f"recursive_subclasses: a part of the result occurs twice: {ops}")
+    # the ORDER of the parts is kept: it is the order in which a lazily consumed evaluation walks the classes, which is
+    # observable (which late instances a suspended evaluation still meets, F-C13-3)
+    return ops + ([".dedupKeepFirst"] if dedup else [])
 
 
 # ------------------------------------------------------------------------------------------------- driver
